@@ -2,6 +2,7 @@
 // Entities live in generator-chosen slots ($n). The canonical `dump` prints everything the public getters expose.
 #include "common.hpp"
 #include "store.hpp"
+#include <cstdlib>
 #include <cstdio>
 #include <cstring>
 #include <sys/stat.h>
@@ -28,9 +29,65 @@ void resetAll() {
 }
 struct Init { Init() { resetHooks().push_back(resetAll); } } init;
 
+namespace {
+bool some(const Ent &e) {
+    switch (e.kind) {
+    case 'B': return !!e.b; case 'S': return !!e.s; case 'O': return !!e.o; case 'A': return !!e.a; case 'D': return !!e.d;
+    case 'T': return !!e.t; case 'M': return !!e.m; case 'G': return !!e.g; case 'R': return !!e.r; case 'P': return !!e.p;
+    }
+    return false;
+}
+std::string idOfEnt(const Ent &e) {
+    switch (e.kind) {
+    case 'B': return e.b.id(); case 'S': return e.s.id(); case 'O': return e.o.id(); case 'A': return e.a.id(); case 'D': return e.d.id();
+    case 'T': return e.t.id(); case 'M': return e.m.id(); case 'G': return e.g.id(); case 'R': return e.r.id(); case 'P': return e.p.id();
+    }
+    return "";
+}
+// a second handle of the entity, found again from the file by its id through fresh lookups; false if it cannot be found (deleted,
+// file closed, …) — then the slot has no twin
+bool refetch(const Ent &e, Ent &out) {
+    try {
+        nix::File &f = state().file;
+        if (!f || !f.isOpen() || !some(e)) return false;
+        std::string id = idOfEnt(e);
+        if (id.empty()) return false;
+        out = Ent(); out.kind = e.kind;
+        if (e.kind == 'B') { out.b = f.getBlock(id); return some(out); }
+        if (e.kind == 'S') { auto v = f.findSections(nix::util::IdFilter<nix::Section>(id)); if (v.size() != 1) return false; out.s = v[0]; return true; }
+        if (e.kind == 'P') {
+            for (auto &sec : f.findSections()) if (sec.hasProperty(id)) { out.p = sec.getProperty(id); return some(out); }
+            return false;
+        }
+        for (auto &b : f.blocks()) {
+            switch (e.kind) {
+            case 'A': if (b.hasDataArray(id)) { out.a = b.getDataArray(id); return some(out); } break;
+            case 'D': if (b.hasDataFrame(id)) { out.d = b.getDataFrame(id); return some(out); } break;
+            case 'T': if (b.hasTag(id)) { out.t = b.getTag(id); return some(out); } break;
+            case 'M': if (b.hasMultiTag(id)) { out.m = b.getMultiTag(id); return some(out); } break;
+            case 'G': if (b.hasGroup(id)) { out.g = b.getGroup(id); return some(out); } break;
+            case 'O': { auto v = b.findSources(nix::util::IdFilter<nix::Source>(id)); if (v.size() == 1) { out.o = v[0]; return true; } break; }
+            case 'R':
+                for (auto &t : b.tags()) if (t.hasFeature(id)) { out.r = t.getFeature(id); return some(out); }
+                for (auto &t : b.multiTags()) if (t.hasFeature(id)) { out.r = t.getFeature(id); return some(out); }
+                break;
+            default: break;
+            }
+        }
+        return false;
+    } catch (...) { return false; }
+}
+}
+
 Ent &slot(const std::string &s) {
-    auto it = state().slots.find(s);
-    if (it == state().slots.end()) throw ProtoError("empty slot " + s);
+    SlotMap &sm = state().slots;
+    auto it = sm.m.find(s);
+    if (it == sm.m.end()) throw ProtoError("empty slot " + s);
+    if (!getenv("NIXDRV_NO_TWINS")) {
+        if (!sm.tried[s]) { sm.tried[s] = true; Ent t; if (refetch(it->second, t)) sm.twin[s] = t; }
+        auto tw = sm.twin.find(s);
+        if (tw != sm.twin.end() && (sm.uses[s]++ % 2 == 1)) return tw->second;
+    }
     return it->second;
 }
 bool hasSlot(const std::string &s) { return state().slots.count(s) > 0; }
